@@ -14,3 +14,11 @@ check("C02", "exploration", "Hypothesis + differential oracle (google.protobuf) 
       "Generated values are encoded by betterproto and decoded by the reference, encoded by the reference and decoded by betterproto, and the reference bytes are rewritten by an independent spec-level re-encoder (permutation, packing toggle, chunk split, varint padding, overridden duplicates, unknown fields) before betterproto decodes them; the reference's own decode of each re-encoding is the soundness guard.",
       "Trusts google.protobuf 7.36.1 and vf/wire.py; repeated occurrences of singular message fields are out of the stated domain and not generated.",
       "DESIGN.md 3/C02")
+check("C04", "exploration", "Hypothesis value trees + JSON/dict round-trip oracle",
+      "Generated values x casing {CAMEL,SNAKE} x path {dict, JSON text, to_json/from_json} x form {classmethod, instance}: json.dumps(to_dict(m)) must succeed and the reloaded message must have the same public-observer snapshot, be == m and encode to the same bytes. Three genuine defects of the pinned tree (map keys/values and BytesValue in JSON) are listed in known_findings.json and matched by narrow signatures; anything else is a violation.",
+      "Samples the value space; byte equality is not demanded when the value contains a nan (JSON cannot carry nan payload bits).",
+      "DESIGN.md 3/C04")
+check("C05", "exploration", "Hypothesis value trees + differential oracle (google.protobuf.json_format)",
+      "Generated values: betterproto's JSON must be accepted by json_format.Parse and give the reference message of the same tree; the reference's JSON (camelCase and original proto names) must be accepted by from_json and give the same snapshot.",
+      "Trusts json_format 7.36.1 as the canonical mapping; microsecond-resolution times only.",
+      "DESIGN.md 3/C05")
